@@ -39,7 +39,7 @@ def StripForTlc(x):
     return {k: StripForTlc(v) for k, v in x.items()
             if k not in ('form', 'paren', 'ann', 'named_order', 'noise',
                          'order_as_denotation', 'limit_as_denotation', 'meta',
-                         'typ')}
+                         'typ', 'chain')}
   if isinstance(x, list):
     return [StripForTlc(v) for v in x]
   return x
